@@ -95,18 +95,22 @@ Print Assumptions C11_scope_hier.
 
 (** Every PROPFIND on the three servers is answered 207 (Ok) or refused with 400
     (body that is not a propfind, no form, bad Depth, relative path) or 404
-    (nothing there); the model never panics. *)
-Theorem C11_status_hier : forall s hprefix b path ct bd dh,
+    (nothing there); the model never panics.
+    PARTIAL with respect to the property's last clause: that the 207 body is
+    well-formed, namespace-correct XML is not proved (bytes are encoding/xml's);
+    it is checked on every response of every run by the harness's strict reader
+    (bit [ob_strict], which the executable specification requires). *)
+Theorem C11_status_hier_partial : forall s hprefix b path ct bd dh,
   match hier_propfind s hprefix b path ct bd dh with
   | Ok _ => True | Err c => c = 400%N \/ c = 404%N | Panic => False end.
 Proof. exact status_hier. Qed.
-Print Assumptions C11_status_hier.
+Print Assumptions C11_status_hier_partial.
 
-Theorem C11_status_dav : forall t path ct bd dh,
+Theorem C11_status_dav_partial : forall t path ct bd dh,
   match dav_propfind t path ct bd dh with
   | Ok _ => True | Err c => c = 400%N \/ c = 404%N | Panic => False end.
 Proof. exact status_dav. Qed.
-Print Assumptions C11_status_dav.
+Print Assumptions C11_status_dav_partial.
 
 (** ** The principal helper *)
 
